@@ -85,3 +85,49 @@ Theorem C13_holds : forall g ops a,
   0 <= withdrawn_by (init_chain g) ops a <= issued_to (init_chain g) ops a.
 Proof. exact reward_identity_genesis. Qed.
 Print Assumptions C13_holds.
+
+(* the history theorem with [run_wf] discharged from the inputs (hypotheses of C09_holds_inputs:
+   well-formed genesis document, well-bracketed list, staking transactions with pairwise distinct
+   non-zero hashes, transactions in the Go ranges, genesis supply + requested withdrawals below
+   2^63 RIGO).  What remains is the no-wrap condition of the statement itself. *)
+From Rigo Require InvStake InvSupply InvPanic InvReach InvClosed.
+Theorem C13_holds_closed : forall g ops a,
+  (params_ok (gen_params g) /\ (length (gen_validators g) <= 1)%nat /\
+   Forall (fun v : addr * Z => 0 <= v.2 < two63) (gen_validators g) /\
+   Forall (fun h : addr * Z => 0 <= h.2 < two256) (gen_holders g)) ->
+  InvPanic.bracketed InvPanic.Idle 0 ops ->
+  NoDup (0%N :: InvReach.stake_hashes ops) ->
+  InvSupply.txs_ok ops ->
+  supply (work (init_chain g)) + InvReach.requested ops < InvSupply.supply_bound ->
+  issued_to (init_chain g) ops a < two256 ->
+  cum_of (srun (init_chain g) ops) a = issued_to (init_chain g) ops a - withdrawn_by (init_chain g) ops a /\
+  0 <= withdrawn_by (init_chain g) ops a <= issued_to (init_chain g) ops a.
+Proof. exact InvClosed.C13_closed. Qed.
+Print Assumptions C13_holds_closed.
+
+(* with no hypothesis beyond the inputs: the identity modulo 2^256 *)
+Theorem C13_holds_closed_mod : forall g ops a,
+  (params_ok (gen_params g) /\ (length (gen_validators g) <= 1)%nat /\
+   Forall (fun v : addr * Z => 0 <= v.2 < two63) (gen_validators g) /\
+   Forall (fun h : addr * Z => 0 <= h.2 < two256) (gen_holders g)) ->
+  InvPanic.bracketed InvPanic.Idle 0 ops ->
+  NoDup (0%N :: InvReach.stake_hashes ops) ->
+  InvSupply.txs_ok ops ->
+  supply (work (init_chain g)) + InvReach.requested ops < InvSupply.supply_bound ->
+  cum_of (srun (init_chain g) ops) a
+    = (issued_to (init_chain g) ops a - withdrawn_by (init_chain g) ops a) mod two256.
+Proof. exact InvClosed.C13_closed_mod. Qed.
+Print Assumptions C13_holds_closed_mod.
+
+(* [run_wf] itself, from the inputs *)
+Theorem C13_run_wf_reachable : forall g ops,
+  (params_ok (gen_params g) /\ (length (gen_validators g) <= 1)%nat /\
+   Forall (fun v : addr * Z => 0 <= v.2 < two63) (gen_validators g) /\
+   Forall (fun h : addr * Z => 0 <= h.2 < two256) (gen_holders g)) ->
+  InvPanic.bracketed InvPanic.Idle 0 ops ->
+  NoDup (0%N :: InvReach.stake_hashes ops) ->
+  InvSupply.txs_ok ops ->
+  supply (work (init_chain g)) + InvReach.requested ops < InvSupply.supply_bound ->
+  run_wf (init_chain g) ops.
+Proof. exact InvClosed.run_wf_reachable. Qed.
+Print Assumptions C13_run_wf_reachable.
